@@ -1350,10 +1350,10 @@ def part_falsy(ctx, rep):
     rng = ctx.rng('falsy')
     n = len(FOPS)
     hs = []
-    for L in range(1, (3 if ctx.quick else 4) + 1):
+    for L in range(1, (2 if ctx.quick else 4) + 1):
         hs += list(itertools.product(range(n), repeat=L))
-    for _ in range(150 if ctx.quick else 3000):
-        hs.append(tuple(rng.randrange(n) for _ in range(rng.choice([4, 5, 6]))))
+    for _ in range(250 if ctx.quick else 3000):
+        hs.append(tuple(rng.randrange(n) for _ in range(rng.choice([3, 4, 5, 6]))))
     cases = []
     for h in hs:
         codes, finds = run_falsy(list(h))
